@@ -119,7 +119,10 @@ func (t *SymbolTable) Var(v Variable) string {
 }
 
 func (t *SymbolTable) Clone() *SymbolTable {
-	newTable := *t
+	// copy the elements: a copy of the slice header alone shares its backing
+	// array, so two clones of one table would overwrite each other's additions
+	newTable := make(SymbolTable, len(*t))
+	copy(newTable, *t)
 	return &newTable
 }
 
